@@ -83,6 +83,16 @@ def cases(rng, tier):
         out.append({"kind": "scalar_right", "a": a, "f": "add", "c": 1, "dta": "int16", "long": True})
         out.append({"kind": "reduce", "a": a, "f": rng.choice(["sum", "max", "any", "mean"]), "dta": "uint8", "long": True})
         out.append({"kind": "concat", "parts": [a[:300], b[:65600] if L > 65600 else b[:200]], "dta": "int64", "long": True})
+    # MIXED dtype pairs over large / neighbouring / extreme values (int64 against uint64 beyond 2**53, 32-bit against 64-bit, floats
+    # against integers): numpy's own loop for the pair on the decoded arrays is the reference
+    PAIRS = [("int64", "uint64"), ("uint64", "int64"), ("int64", "float64"), ("float64", "uint64"), ("int32", "uint32"), ("uint8", "int8"),
+             ("int64", "int64"), ("uint64", "uint64"), ("float32", "int32"), ("int16", "uint64"), ("float64", "float32"), ("int64", "uint64"), ("uint64", "int64")]
+    for _ in range(600 if tier == "quick" else 8000):
+        n = rng.randint(1, 10)
+        a = (rlgen.array_random(rng, n) + [0] * n)[:n]; b = (rlgen.array_random(rng, n) + [1] * n)[:n]
+        dta, dtb = rng.choice(PAIRS)
+        out.append({"kind": "arrays", "a": a, "b": b, "f": rng.choice(BIN + ["greater", "less_equal", "greater_equal", "equal", "less", "not_equal"]),
+                    "dta": dta, "dtb": dtb, "vm": rng.choice(["near", "near", False, True]), "vmb": rng.choice(["near", "near", False, True])})
     for _ in range(400 if tier == "quick" else 6000):
         n = rng.randint(1, 30)
         a = rlgen.array_random(rng, n)[:n]; a = (a + [0] * n)[:n]
@@ -157,12 +167,19 @@ def _vals(classes, dt, mode=True):
     return rlgen.to_values(classes, dt, small=mode)
 
 
+def _z(x):
+    """a run holds EQUAL neighbouring cells and +0.0 == -0.0: the sign of a zero cell is not representable in a run-length array
+    (C14 makes the same reading of 'equal'), so decoded float results are compared with zeros of either sign identified"""
+    x = np.asarray(x)
+    return np.where(x == 0, np.zeros(1, dtype=x.dtype)[0], x) if x.dtype.kind == "f" else x
+
+
 def _rl(r, joined):
     from npstructures import RunLengthArray
     if not isinstance(r, RunLengthArray):
         return canon(r)
     o = {"k": "obs"}
-    o["decoded"] = guarded(lambda: r.to_array())
+    o["decoded"] = guarded(lambda: _z(r.to_array()))
     o["canonical"] = guarded(lambda: rlgen.canonical_info(r, joined))
     return o
 
@@ -200,7 +217,7 @@ def run_impl(p):
             elif k == "scalar_left":
                 res = uf(p["c"], x)
             else:
-                y = RunLengthArray.from_array(_vals(p["b"], p["dtb"]))
+                y = RunLengthArray.from_array(_vals(p["b"], p["dtb"], p.get("vmb", True)))
                 if p.get("split") and np.dtype(p["dta"]).kind in "iu" and np.dtype(p["dta"]).itemsize >= 4:
                     # the first operand is itself a RESULT (a scalar ufunc keeps the run boundaries of ITS operand): neighbouring runs
                     # hold equal values; it must behave like the freshly encoded array, and still decode to the same cells afterwards
@@ -229,7 +246,7 @@ def oracle(p):
         with np.errstate(all="ignore"), warnings.catch_warnings():
             warnings.simplefilter("ignore")
             if k == "concat":
-                return {"k": "obs", "decoded": canon(np.concatenate([_vals(a, p["dta"]) for a in p["parts"]])), "canonical": canon(True)}
+                return {"k": "obs", "decoded": canon(_z(np.concatenate([_vals(a, p["dta"]) for a in p["parts"]]))), "canonical": canon(True)}
             a = _vals(p["a"], p["dta"], p.get("vm", True))
             if k == "sum":
                 return canon(int(a.sum()))
@@ -250,11 +267,11 @@ def oracle(p):
             elif k == "scalar_left":
                 res = uf(p["c"], a)
             else:
-                b = _vals(p["b"], p["dtb"])
+                b = _vals(p["b"], p["dtb"], p.get("vmb", True))
                 if len(a) != len(b):
                     return refuse()
                 res = uf(a, b)
-            return {"k": "obs", "decoded": canon(res), "canonical": canon(True), "operand_unmodified": canon(True)}
+            return {"k": "obs", "decoded": canon(_z(res)), "canonical": canon(True), "operand_unmodified": canon(True)}
     except Exception:
         return refuse()
 
@@ -264,6 +281,8 @@ def lean_request(p):
     if p.get("long"):
         return None
     if p.get("dta") != "int64" or p.get("dtb", "int64") != "int64":
+        return None
+    if p.get("vm", True) is not True or p.get("vmb", True) is not True:
         return None
     if k == "arrays" and p["f"] in BIN:
         return {"op": "RL.binop", "kind": "arrays", "a": p["a"], "b": p["b"], "f": p["f"]}
